@@ -140,6 +140,7 @@ func c03(tier string) []*explore.Scenario {
 	}
 	out = append(out, c03Foreign())
 	out = append(out, apiSeqs("C03", tier)...)
+	out = append(out, handlerSeqs("C03", tier)...)
 	return out
 }
 
